@@ -239,7 +239,7 @@ func (interp *Interpreter) gta(root *node, rpath, importPath, pkgName string) ([
 				ipath = constToString(n.child[0].rval)
 			}
 			// Try to import a binary package first, or a source package
-			var pkgName string
+			var pkgName, pkgPath string
 			// A binary package may be named by the key it is exported under ("fmt/fmt").
 			// Do not touch the path otherwise: "a/a" is a legitimate source package path.
 			if packageName := path.Base(ipath); path.Dir(ipath) == packageName &&
@@ -291,12 +291,12 @@ func (interp *Interpreter) gta(root *node, rpath, importPath, pkgName string) ([
 					err = n.cfgErrorf("%s redeclared in this block", name)
 					return false
 				}
-			} else if pkgName, err = interp.importSrc(rpath, ipath, NoTest); err == nil {
+			} else if pkgName, pkgPath, err = interp.importSrc(rpath, ipath, NoTest); err == nil {
 				sc.types = interp.universe.types
 				switch name {
 				case "_": // no import of symbols
 				case ".": // import symbols in current namespace
-					for k, v := range interp.srcPkg[ipath] {
+					for k, v := range interp.srcPkg[pkgPath] {
 						if canExport(k) {
 							sc.sym[k] = v
 						}
@@ -307,9 +307,9 @@ func (interp *Interpreter) gta(root *node, rpath, importPath, pkgName string) ([
 					}
 					name = filepath.Join(name, baseName)
 					if sym, exists := sc.sym[name]; !exists {
-						sc.sym[name] = &symbol{kind: pkgSym, typ: &itype{cat: srcPkgT, path: ipath, scope: sc}}
+						sc.sym[name] = &symbol{kind: pkgSym, typ: &itype{cat: srcPkgT, path: pkgPath, scope: sc}}
 						break
-					} else if sym.kind == pkgSym && sym.typ.cat == srcPkgT && sym.typ.path == ipath {
+					} else if sym.kind == pkgSym && sym.typ.cat == srcPkgT && sym.typ.path == pkgPath {
 						// ignore re-import of identical package
 						break
 					}
